@@ -20,7 +20,7 @@ import json, os
 from lib.common import *
 from lib import abigen
 
-QUICK_BUILDS = 7
+QUICK_BUILDS = 5
 
 
 def gen_pool(ctx):
@@ -124,7 +124,7 @@ def run(ctx):
         ctx.report("cfg:%s:%s:run%d:%s" % (rj["id"], rj["profile"], rj["run"], rj["failed"]), what, rj)
     # binding self-test: corrupt one recorded byte of a log / shift one offset -> must be rejected
     selftest = None
-    if trace and not ctx.violations:
+    if trace and not ctx.violations and not ctx.quick:
         import copy
         t1 = copy.deepcopy(next(t for t in trace if len(t["cfgs"]) >= 2 and any(len(c["t"]["es"]) or c["len"] for c in t["cfgs"])))
         j = next(i for i, lg in enumerate(t1["runs"][1]["logs"]) if lg)
